@@ -22,11 +22,15 @@ func init() {
 			"reachable from the debouncer goroutine or the reload action takes the session manager's mutex, so submitters holding it cannot deadlock against it " +
 			"(LOCK-NOREACH); validateReload requests a re-apply only for a new `failure` status (REAPPLY); in frr-k8s mode the desired configuration is stored " +
 			"under the reconciler's lock before the debouncer is signalled, its debouncer forwards one event per burst, and Reconcile returns every API error so the " +
-			"request is re-queued (K8S-DELIVER).",
+			"request is re-queued (K8S-DELIVER); the reload action replaces the whole file and stores nothing through the configuration it is handed, " +
+			"which the debouncer keeps for its retries (GENERATE, ACTION-READONLY).",
 		NotDecided: "Liveness and timing over all arrival patterns (that the timer eventually fires, durations); behaviour of the external FRR reloader; controller-runtime's " +
 			"re-queue semantics.",
 		Run: runC19,
 		Mutants: []Mutant{
+			{Name: "first-routerless-configuration-skipped", File: "internal/bgp/frr/frr.go",
+				Old: "\treload := func(config *frrConfig) error {\n\t\treturn generateAndReloadConfigFile(config, l)\n\t}\n\n\tdebouncer(reload, res.reloadConfig, debounceTimeout, failureTimeout, l)\n\n\treloadValidator(l, res.reloadConfig)\n\n\treturn res\n}\n\nfunc mockNewSessionManager",
+				New: "\tconfigured := false\n\treload := func(config *frrConfig) error {\n\t\tif !configured && len(config.Routers) == 0 {\n\t\t\treturn nil\n\t\t}\n\t\tconfigured = true\n\t\treturn generateAndReloadConfigFile(config, l)\n\t}\n\n\tdebouncer(reload, res.reloadConfig, debounceTimeout, failureTimeout, l)\n\n\treloadValidator(l, res.reloadConfig)\n\n\treturn res\n}\n\nfunc mockNewSessionManager", Expect: "action-is-the-reload"},
 			{Name: "config-file-not-truncated", File: "internal/bgp/frr/config.go",
 				Old: "\treturn os.WriteFile(filename, []byte(config), 0600)",
 				New: "\tf, err := os.OpenFile(filename, os.O_WRONLY|os.O_CREATE, 0600)\n\tif err != nil {\n\t\treturn err\n\t}\n\tdefer f.Close()\n\t_, err = f.WriteString(config)\n\treturn err", Expect: "replaces-the-whole-file"},
@@ -101,6 +105,17 @@ func caseBlock(g *chk.Graph, cc *ast.CommClause) *cfgBlock {
 		}
 	}
 	return nil
+}
+
+// startedAsGoroutine: f has callers and each of them calls it in a go statement.
+func startedAsGoroutine(p *chk.Prog, f *chk.Fn) bool {
+	cs := p.CallersOf(f)
+	for _, c := range cs {
+		if gs, isGo := p.Parent(c.Call).(*ast.GoStmt); !isGo || gs.Call != c.Call {
+			return false
+		}
+	}
+	return len(cs) > 0
 }
 
 // goLit finds the function literal started as a goroutine inside f.
@@ -477,6 +492,51 @@ func c19Submit(p *chk.Prog, r *chk.Report) {
 		}
 		gen.Check("writeConfig:replaces-the-whole-file", wf.Pos(), how != "", how, "the configuration file is not replaced as a whole (no os.WriteFile / os.Create / O_TRUNC / rename): when the new text is shorter than the old one the tail of the old configuration stays in the file the reloader loads")
 	}
+	// the action handed to the debouncer is the reload itself: it reports success only through generateAndReloadConfigFile
+	// of the configuration it was given (no "nothing to do yet" shortcut: a restarted speaker must replace the stale file)
+	if nf0 := need(gen, p, frrPkg, "", "NewSessionManager"); nf0 != nil {
+		// the wiring is in NewSessionManager itself or in a constructor helper of the package that it calls
+		nf := nf0
+		if len(nf.Graph().FindPat("debouncer(ACT, ETC)")) == 0 {
+			cl, _ := p.Closure(nf0)
+			for _, cf := range cl {
+				if cf.Decl != nil && cf.Pkg.PkgPath == chk.Module+"/"+frrPkg && cf != nf0 && len(cf.Graph().FindPat("debouncer(ACT, ETC)")) > 0 {
+					nf = cf
+				}
+			}
+		}
+		ng := nf.Graph()
+		okAct, nAct := true, 0
+		for _, ds := range ng.FindPat("debouncer(ACT, ETC)") {
+			nAct++
+			act := throughLocals(ng, ds.Node.(*ast.CallExpr).Args[0])
+			lit, isLit := ast.Unparen(act).(*ast.FuncLit)
+			if !isLit {
+				// the reload function itself (same signature) handed over directly
+				okAct = okAct && nf.MatchNew("generateAndReloadConfigFile", act) != nil
+				continue
+			}
+			lf := nf.LitFn(lit)
+			lg := lf.Graph()
+			call := "generateAndReloadConfigFile(C, L)"
+			cfg := chk.H("C", isParamIdx(lf, 0))
+			for _, rt := range lg.Returns() {
+				rr := retResults(rt)
+				if len(rr) != 1 {
+					okAct = false
+					continue
+				}
+				switch {
+				case lf.MatchWith(call, rr[0], cfg) != nil, definedBy(lg, call, cfg)(rr[0]):
+				case lf.IsNilLit(rr[0]):
+					okAct = okAct && lg.Dominated(rt, lg.GErrNil(true, call, cfg))
+				default:
+					okAct = okAct && lg.Dominated(rt, lg.GErrNil(false, call, cfg))
+				}
+			}
+		}
+		gen.Check("NewSessionManager:action-is-the-reload", nf.Pos(), okAct && nAct == 1, "", "the action the debouncer runs can report success without generateAndReloadConfigFile having run on the configuration it was given (a skipped first configuration leaves the stale file of the previous speaker in force, and nothing retries)")
+	}
 	// the reload signal itself: success means the reloader was signalled
 	rc := need(gen, p, frrPkg, "", "reloadConfig")
 	if rc != nil {
@@ -512,33 +572,75 @@ func c19Submit(p *chk.Prog, r *chk.Report) {
 		g := vf.Graph()
 		n := 0
 		isFailure := chk.GOr(g.GPat(true, `strings.Compare(ST, "failure") == 0`), g.GPat(true, `ST == "failure"`), g.GPat(true, `strings.Compare("failure", ST) == 0`))
+		// the request: the send itself, or - when the function only decides and its caller sends - the `return true`
+		var reqs []ast.Node
 		ast.Inspect(vf.Body, func(nd ast.Node) bool {
-			ss, ok := nd.(*ast.SendStmt)
-			if !ok {
-				return true
+			if ss, ok := nd.(*ast.SendStmt); ok && vf.MatchNew("reloadEvent{useOld: true}", ss.Value) != nil {
+				reqs = append(reqs, ss)
 			}
+			return true
+		})
+		if len(reqs) == 0 {
+			for _, rt := range g.Returns() {
+				if rr := retResults(rt); len(rr) == 1 && vf.IsConstBool(rr[0], true) {
+					reqs = append(reqs, rt.Node)
+				}
+			}
+			// every caller sends the re-apply request exactly when the answer is yes
+			okCallers, nc := len(reqs) > 0, 0
+			for _, cs := range p.CallersOf(vf) {
+				nc++
+				cf := cs.Fn
+				for q := p.Parent(cs.Call); q != nil; q = p.Parent(q) {
+					if lit, isLit := q.(*ast.FuncLit); isLit {
+						if lf := cs.Fn.LitFn(lit); lf != nil {
+							cf = lf // the call sits in a goroutine literal of the caller
+						}
+						break
+					}
+				}
+				cg := cf.Graph()
+				yes := chk.GBool(true, func(e ast.Expr) bool { return ast.Unparen(e) == ast.Expr(cs.Call) })
+				es := cg.EdgesImplying(yes)
+				if len(es) == 0 {
+					okCallers = false
+				}
+				for _, e := range es {
+					if cg.BranchAlways(e, func(m ast.Node) bool {
+						ss, isS := m.(*ast.SendStmt)
+						return isS && cf.MatchNew("reloadEvent{useOld: true}", ss.Value) != nil
+					}).Found {
+						okCallers = false
+					}
+				}
+			}
+			if len(reqs) > 0 {
+				rp.Check("validateReload:callers-send-on-yes", vf.Pos(), okCallers && nc > 0, "", "validateReload only reports that a re-apply is due, and a caller does not send reloadEvent{useOld: true} on every yes")
+			}
+		}
+		for _, rq := range reqs {
+			rq := rq
 			n++
-			sites := g.Find(func(m ast.Node) bool { return m == ast.Node(ss) })
-			okk := len(sites) == 1 && vf.MatchNew("reloadEvent{useOld: true}", ss.Value) != nil &&
+			sites := g.Find(func(m ast.Node) bool { return m == rq })
+			okk := len(sites) == 1 &&
 				g.Dominated(sites[0], isFailure) &&
 				g.Dominated(sites[0], chk.GSame(g.GPat(false, "TS == *PREV"), g.GPat(false, "*PREV == TS"),
 					g.GPat(false, "TS == PREV", chk.H("PREV", isParamIdx(vf, 1))), g.GPat(false, "PREV == TS", chk.H("PREV", isParamIdx(vf, 1)))))
 			if okk {
 				// and a newly reported failure always asks for the re-apply: from the edge that establishes it every
-				// path to the end of the function passes the send
+				// path to the end of the function passes the request
 				es := g.EdgesImplying(isFailure)
 				okk = len(es) > 0
 				for _, e := range es {
 					w := (&chk.Walk{G: g, From: chk.Site{G: g, B: e.B.Succs[e.K], I: 0}, Inclusive: true, HitExit: true,
-						Stop: func(m ast.Node) bool { return m == ast.Node(ss) }}).Run()
+						Stop: func(m ast.Node) bool { return m == rq }}).Run()
 					if w.Found {
 						okk = false
 					}
 				}
 			}
-			rp.Check("validateReload:reapply-only-on-new-failure", ss.Pos(), okk, "", "a re-apply is requested for a status other than a newly reported `failure`")
-			return true
-		})
+			rp.Check("validateReload:reapply-only-on-new-failure", rq.Pos(), okk, "", "a re-apply is requested for a status other than a newly reported `failure`")
+		}
 		rp.Check("validateReload:send-site", vf.Pos(), n == 1, "", "expected one re-apply send")
 	}
 }
@@ -642,8 +744,14 @@ func c19K8s(p *chk.Prog, r *chk.Report) {
 	if df != nil {
 		lit := goLit(df)
 		ok := lit != nil
+		var lf *chk.Fn
 		if ok {
-			lf := df.LitFn(lit)
+			lf = df.LitFn(lit)
+		} else if startedAsGoroutine(p, df) {
+			// the loop is the function's own body and every caller starts it with `go debouncer(..)`
+			lf, ok = df, true
+		}
+		if ok {
 			g := lf.Graph()
 			recv, timeout := selectCases(lf)
 			ok = recv != nil && timeout != nil
@@ -661,6 +769,24 @@ func c19K8s(p *chk.Prog, r *chk.Report) {
 				}
 				armedG := chk.GOr(chk.GBool(true, isTS), chk.GBool(false, okVar),
 					chk.GAnd(chk.GEvent(lf.IsAssignPat("TO", "time.After(D)", chk.H("D", isParamIdx(df, 2)))), chk.GEvent(lf.IsAssignPat("T", "true", chk.H("T", isTS)))))
+				// the armed state kept in the timer channel itself: nil = not armed (a nil channel is never selected)
+				var toObj types.Object
+				if ts == nil {
+					for _, s := range g.Find(lf.IsAssignPat("TO", "time.After(D)", chk.H("D", isParamIdx(df, 2)))) {
+						toObj = lf.ObjOf(s.Node.(*ast.AssignStmt).Lhs[0])
+					}
+					if toObj != nil && timeout != nil {
+						// ... and it is the channel the timeout case receives from
+						if ue, isU := firstExprOf(timeout.Comm).(*ast.UnaryExpr); !isU || lf.ObjOf(ue.X) != toObj {
+							toObj = nil
+						}
+					}
+					if toObj != nil {
+						isTO := lf.IsObj(toObj)
+						armedG = chk.GOr(g.GPat(false, "TO == nil", chk.H("TO", isTO)), chk.GBool(false, okVar),
+							chk.GEvent(lf.IsAssignPat("TO", "time.After(D)", chk.H("TO", isTO), chk.H("D", isParamIdx(df, 2)))))
+					}
+				}
 				endsR := g.RegionEnds(caseBlock(g, recv), recv, armedG)
 				okArm := len(endsR) > 0
 				for _, e := range endsR {
@@ -675,10 +801,14 @@ func c19K8s(p *chk.Prog, r *chk.Report) {
 						ss, isSend := n.(*ast.SendStmt)
 						return isSend && isParamIdx(df, 1)(ss.Chan)
 					}, Hit: func(n ast.Node) bool { return !chk.Encloses(timeout, n) }, HitExit: true}).Run()
-					w2 := (&chk.Walk{G: g, From: chk.Site{G: g, B: cb, I: -1}, Stop: lf.IsAssignPat("T", "false", chk.H("T", isTS)), Hit: func(n ast.Node) bool { return !chk.Encloses(timeout, n) }, HitExit: true}).Run()
+					disarm := lf.IsAssignPat("T", "false", chk.H("T", isTS))
+					if toObj != nil {
+						disarm = lf.IsAssignPat("TO", "nil", chk.H("TO", lf.IsObj(toObj)))
+					}
+					w2 := (&chk.Walk{G: g, From: chk.Site{G: g, B: cb, I: -1}, Stop: disarm, Hit: func(n ast.Node) bool { return !chk.Encloses(timeout, n) }, HitExit: true}).Run()
 					okOut = !w1.Found && !w2.Found
 				}
-				ok = ts != nil && okArm && okOut
+				ok = (ts != nil || toObj != nil) && okArm && okOut
 			}
 		}
 		x.Check("controllers.debouncer:arm-and-emit", df.Pos(), ok, "", "the frr-k8s debouncer does not arm a timer for every burst and emit one reconcile event (clearing the flag) when it fires")
